@@ -22,6 +22,12 @@ Lemma build_flag : forall c e p ty nl nl' en any one all items pfx fmt d o,
   build c e p (SSch ty nl en any one all items pfx fmt d o) = build c e p (SSch ty nl' en any one all items pfx fmt d o).
 Proof. reflexivity. Qed.
 
+Lemma build_ssch : forall c e p ty nl en any one all items pfx fmt d o,
+  build c e p (SSch ty nl en any one all items pfx fmt d o)
+  = node_plain c e p ty en any one all (map (build c e p) any) (map (build c e p) one)
+               (option_map (build_g c e p) items) (map (build_g c e p) pfx) fmt d o.
+Proof. reflexivity. Qed.
+
 (* ------------------------------------------------------------------ T1: 3.0 nullable vs 3.1 type list *)
 Theorem nullable_forms_equal : forall c e parent top t en any one all items pfx fmt d o name,
   norm c e parent top (SSch (TyOne t) true en any one all items pfx fmt d o) name
@@ -152,7 +158,7 @@ Proof.
     { rewrite map_map. apply map_ext. intro t. reflexivity. }
     destruct top; unfold pre_at; cbn [pre hn_again hn negb map option_map]; rewrite M; reflexivity. }
   rewrite E1, E2. clear E1 E2 Hpre.
-  cbn [build app map option_map nonempty].
+  rewrite !build_ssch. unfold node_plain. cbn [app map option_map nonempty].
   rewrite (single_not_ref (fun t => SSch (TyOne t) false [] [] [] [] (option_map pre items) (map pre pfx) fmt None o) l).
   2:{ intro t. repeat eexists. }
   unfold pfd. cbn [type_copies map].
@@ -215,7 +221,7 @@ Lemma build_plain_enum : forall c e p ty nl en vt vals items pfx fmt d o n,
 Proof.
   intros c e p ty nl en vt vals items pfx fmt d o n G H.
   pose proof (enum_build_plain_nonempty _ _ _ H) as NE.
-  cbn [build app map]. unfold pfd. destruct en as [|j0 en']; [congruence|].
+  unfold build; cbn [build_g node node_plain andb app map]. unfold pfd. destruct en as [|j0 en']; [congruence|].
   unfold dispatch. rewrite (guard_not_bool _ _ G). unfold enum_branch. rewrite H. reflexivity.
 Qed.
 
@@ -225,7 +231,7 @@ Lemma build_null_enum : forall c e p ty nl en vt vals items pfx fmt d o n,
 Proof.
   intros c e p ty nl en vt vals items pfx fmt d o n G H.
   pose proof (enum_build_nonempty _ _ _ H) as NE.
-  cbn [build app map]. unfold pfd. destruct en as [|j0 en']; [congruence|].
+  unfold build; cbn [build_g node node_plain andb app map]. unfold pfd. destruct en as [|j0 en']; [congruence|].
   unfold dispatch. rewrite (guard_not_bool _ _ G). unfold enum_branch. rewrite H.
   rewrite (guard_no_copies c p ty nl _ _ _ _ _ _ _ G). reflexivity.
 Qed.
@@ -234,7 +240,7 @@ Lemma build_explicit_pair : forall c e p s2 d o' n,
   build c e p (SSch TyAbsent false [] [] [null_sch; s2] [] None [] None d o') n
   = union_build n [k_null; build c e p s2] d.
 Proof.
-  intros. cbn [build app map null_sch]. unfold pfd. cbn [type_copies].
+  intros. unfold build; cbn [build_g node node_plain andb app map null_sch]. unfold pfd. cbn [type_copies].
   rewrite dispatch_union_one; [|reflexivity|discriminate]. reflexivity.
 Qed.
 
@@ -462,11 +468,14 @@ Proof. split; reflexivity. Qed.
    (tuple arrays: prefixItems members and items; union members).  The builder never compares two sub-schemas with each other:
    no member is dropped or merged, whatever notation its siblings are written in. *)
 Definition kid_eq (k k' : kid) : Prop := forall n, k n = k' n.
-Definition okid_eq (k k' : option kid) : Prop :=
-  match k, k' with None, None => True | Some a, Some b => kid_eq a b | _, _ => False end.
+Definition akid_eq (k k' : akid) : Prop := forall b n, k b n = k' b n.
+Definition oakid_eq (k k' : option akid) : Prop :=
+  match k, k' with None, None => True | Some a, Some b => akid_eq a b | _, _ => False end.
 
 Lemma kids_refl : forall ks, Forall2 kid_eq ks ks.
 Proof. induction ks; constructor; [intro; reflexivity|assumption]. Qed.
+Lemma akids_refl : forall ks, Forall2 akid_eq ks ks.
+Proof. induction ks; constructor; [intros ? ?; reflexivity|assumption]. Qed.
 
 Lemma build_members_ext : forall ks ks' name i, Forall2 kid_eq ks ks' -> build_members name i ks = build_members name i ks'.
 Proof.
@@ -477,15 +486,18 @@ Qed.
 Lemma union_build_ext : forall ks ks' name d, Forall2 kid_eq ks ks' -> union_build name ks d = union_build name ks' d.
 Proof. intros. unfold union_build. rewrite (build_members_ext ks ks' name 0 H). reflexivity. Qed.
 
-Lemma array_members_ext : forall ki ki' kp kp', okid_eq ki ki' -> Forall2 kid_eq kp kp' ->
-  Forall2 kid_eq (array_members ki kp) (array_members ki' kp').
+Lemma array_members_ext : forall ki ki' kp kp', oakid_eq ki ki' -> Forall2 akid_eq kp kp' ->
+  Forall2 akid_eq (array_members ki kp) (array_members ki' kp').
 Proof.
   intros ki ki' kp kp' Hi Hp. unfold array_members. apply Forall2_app; [assumption|].
   destruct ki, ki'; cbn in Hi; try contradiction; repeat constructor; assumption.
 Qed.
 
+Lemma revalidated_ext : forall ks ks', Forall2 akid_eq ks ks' -> Forall2 kid_eq (map (fun k : bool -> kid => k true) ks) (map (fun k : bool -> kid => k true) ks').
+Proof. intros ks ks' H. induction H; cbn [map]; constructor; [intro; apply H|assumption]. Qed.
+
 Lemma dispatch_ext : forall c p ty ec tk tk' ka ka' ko ko' ha ki ki' kp kp' fmt d o name,
-  Forall2 kid_eq tk tk' -> Forall2 kid_eq ka ka' -> Forall2 kid_eq ko ko' -> okid_eq ki ki' -> Forall2 kid_eq kp kp' ->
+  Forall2 kid_eq tk tk' -> Forall2 kid_eq ka ka' -> Forall2 kid_eq ko ko' -> oakid_eq ki ki' -> Forall2 akid_eq kp kp' ->
   dispatch c p ty ec tk ka ko ha ki kp fmt d o name = dispatch c p ty ec tk' ka' ko' ha ki' kp' fmt d o name.
 Proof.
   intros c p ty ec tk tk' ka ka' ko ko' ha ki ki' kp kp' fmt d o name Ht Ha Ho Hi Hp.
@@ -502,13 +514,13 @@ Proof.
   pose proof (array_members_ext ki ki' kp kp' Hi Hp) as Hm.
   destruct Hm as [|k k' ks ks' Hk Hks]; [reflexivity|].
   destruct Hks as [|k2 k2' ks ks' Hk2 Hks].
-  - rewrite Hk. reflexivity.
-  - rewrite (union_build_ext (k :: k2 :: ks) (k' :: k2' :: ks') (item_name name) None); [reflexivity|].
-    repeat constructor; assumption.
+  - rewrite (Hk false). reflexivity.
+  - rewrite (union_build_ext (map (fun k : bool -> kid => k true) (k :: k2 :: ks)) (map (fun k : bool -> kid => k true) (k' :: k2' :: ks')) (item_name name) None); [reflexivity|].
+    apply revalidated_ext. repeat constructor; assumption.
 Qed.
 
 Lemma type_copies_ext : forall c p ty ka ka' ko ko' ha ki ki' kp kp' fmt o,
-  Forall2 kid_eq ka ka' -> Forall2 kid_eq ko ko' -> okid_eq ki ki' -> Forall2 kid_eq kp kp' ->
+  Forall2 kid_eq ka ka' -> Forall2 kid_eq ko ko' -> oakid_eq ki ki' -> Forall2 akid_eq kp kp' ->
   Forall2 kid_eq (type_copies c p ty ka ko ha ki kp fmt o) (type_copies c p ty ka' ko' ha ki' kp' fmt o).
 Proof.
   intros c p ty ka ka' ko ko' ha ki ki' kp kp' fmt o Ha Ho Hi Hp. destruct ty as [|t|l]; try constructor.
@@ -517,7 +529,7 @@ Proof.
 Qed.
 
 Lemma pfd_ext : forall c p ty en ka ka' ko ko' ha ki ki' kp kp' fmt d o name,
-  Forall2 kid_eq ka ka' -> Forall2 kid_eq ko ko' -> okid_eq ki ki' -> Forall2 kid_eq kp kp' ->
+  Forall2 kid_eq ka ka' -> Forall2 kid_eq ko ko' -> oakid_eq ki ki' -> Forall2 akid_eq kp kp' ->
   pfd c p ty en ka ko ha ki kp fmt d o name = pfd c p ty en ka' ko' ha ki' kp' fmt d o name.
 Proof.
   intros c p ty en ka ka' ko ko' ha ki ki' kp kp' fmt d o name Ha Ho Hi Hp. unfold pfd.
@@ -527,6 +539,49 @@ Proof.
     apply type_copies_ext; try assumption. apply kids_refl. }
   rewrite EB.
   apply dispatch_ext; try assumption. apply type_copies_ext; assumption.
+Qed.
+
+Lemma node_plain_ext : forall c e p ty en any one all ka ka' ko ko' ki ki' kp kp' fmt d o name,
+  Forall2 kid_eq ka ka' -> Forall2 kid_eq ko ko' -> oakid_eq ki ki' -> Forall2 akid_eq kp kp' ->
+  node_plain c e p ty en any one all ka ko ki kp fmt d o name = node_plain c e p ty en any one all ka' ko' ki' kp' fmt d o name.
+Proof.
+  intros. unfold node_plain.
+  destruct (all ++ any ++ one) as [|[r|? ? ? ? ? ? ? ? ? ? ?] [|? ?]]; try reflexivity; apply pfd_ext; assumption.
+Qed.
+
+(* one more validator run on a built node = building the node validated once more: a tuple member is built like a top position *)
+Lemma k_allof_spec : forall c e p all n, all <> [] ->
+  k_allof c e p all n = build c e p (SSch TyAbsent false [] [] [] all None [] None None o_none) n.
+Proof.
+  intros c e p all n H. rewrite build_ssch. unfold k_allof, node_plain. cbn [app]. rewrite app_nil_r.
+  destruct all as [|[r|? ? ? ? ? ? ? ? ? ? ?] [|? ?]]; try congruence; reflexivity.
+Qed.
+
+Lemma again_is_top : forall c e p s n, build_g c e p s true n = build c e p (hn_again s) n.
+Proof.
+  intros c e p s n. destruct s as [r|ty nl en any one all items pfx fmt d o]; [reflexivity|].
+  cbn [hn_again build_g]. unfold hn, node. destruct nl; cbn [negb andb]; [|reflexivity].
+  destruct ty as [|t|l]; try reflexivity.
+  destruct one as [|o1 one']; [destruct any as [|a1 any']; [destruct all as [|l1 all']|]|].
+  - reflexivity.
+  - rewrite build_ssch. apply node_plain_ext; try apply kids_refl; try apply akids_refl; [|destruct (option_map (build_g c e p) items); cbn; [intros ? ?; reflexivity|exact I]].
+    cbn [map]. constructor; [intro; reflexivity|]. constructor; [|constructor].
+    intro m. apply k_allof_spec. discriminate.
+  - rewrite build_ssch. rewrite map_app. reflexivity.
+  - rewrite build_ssch. rewrite map_app. reflexivity.
+Qed.
+
+Lemma equiv_kids : forall c e parent l l', Forall2 (equiv c e parent) l l' ->
+  Forall2 kid_eq (map (build c e parent) (map pre l)) (map (build c e parent) (map pre l')).
+Proof. intros c e parent l l' H. induction H; cbn [map]; constructor; [intro n; exact (H false n)|assumption]. Qed.
+
+Lemma equiv_akids : forall c e parent l l', Forall2 (equiv c e parent) l l' ->
+  Forall2 akid_eq (map (build_g c e parent) (map pre l)) (map (build_g c e parent) (map pre l')).
+Proof.
+  intros c e parent l l' H. induction H as [|a b l l' Hab _ IH]; cbn [map]; constructor; [|assumption].
+  intros again n. destruct again.
+  - rewrite !again_is_top. exact (Hab true n).
+  - exact (Hab false n).
 Qed.
 
 Lemma hn_shape : forall ty nl en any one all, exists ty2 any2 one2 all2,
@@ -548,10 +603,6 @@ Proof.
   - exists ty2, any2, one2, all2. intros. unfold pre_at. cbn [pre]. apply H1.
 Qed.
 
-Lemma equiv_kids : forall c e parent l l', Forall2 (equiv c e parent) l l' ->
-  Forall2 kid_eq (map (build c e parent) (map pre l)) (map (build c e parent) (map pre l')).
-Proof. intros c e parent l l' H. induction H; cbn [map]; constructor; [exact H|assumption]. Qed.
-
 (* tuple arrays (and every other use of items): prefixItems members and items may each be written in any equivalent notation,
    independently of one another; equal members are kept, never merged *)
 Theorem items_congruence : forall c e parent top ty nl en any one all items items' pfx pfx' fmt d o name,
@@ -561,14 +612,10 @@ Theorem items_congruence : forall c e parent top ty nl en any one all items item
 Proof.
   intros c e parent top ty nl en any one all items items' pfx pfx' fmt d o name Hp Hi.
   unfold norm. destruct (pre_at_shape top ty nl en any one all) as (ty2 & any2 & one2 & all2 & H). rewrite !H.
-  cbn [build].
-  assert (K : forall n, pfd c parent ty2 en (map (build c e parent) any2) (map (build c e parent) one2) (nonempty all2)
-                 (option_map (build c e parent) (option_map pre items)) (map (build c e parent) (map pre pfx)) fmt d o n
-              = pfd c parent ty2 en (map (build c e parent) any2) (map (build c e parent) one2) (nonempty all2)
-                 (option_map (build c e parent) (option_map pre items')) (map (build c e parent) (map pre pfx')) fmt d o n).
-  { intro n. apply pfd_ext; try apply kids_refl; [|apply equiv_kids; assumption].
-    destruct items, items'; cbn in Hi |- *; try contradiction; [exact Hi|exact I]. }
-  destruct (all2 ++ any2 ++ one2) as [|[r|? ? ? ? ? ? ? ? ? ? ?] [|? ?]]; try reflexivity; apply K.
+  rewrite !build_ssch.
+  apply node_plain_ext; try apply kids_refl; [|apply equiv_akids; assumption].
+  destruct items as [a|], items' as [b|]; cbn in Hi |- *; try contradiction; [|exact I].
+  intros again n. destruct again; [rewrite !again_is_top; exact (Hi true n)|exact (Hi false n)].
 Qed.
 
 Lemma forall2_len : forall (A B : Type) (R : A -> B -> Prop) l l', Forall2 R l l' -> length l = length l'.
@@ -585,13 +632,13 @@ Proof.
   intros c e parent ty en any any' one one' all items pfx fmt d o name Ha Ho L.
   assert (L' : length (all ++ any' ++ one') <> 1%nat).
   { rewrite !app_length in *. rewrite <- (forall2_len _ _ _ _ _ Ha), <- (forall2_len _ _ _ _ _ Ho). exact L. }
-  unfold norm, pre_at. cbn [pre hn negb build].
+  unfold norm, pre_at. cbn [pre hn negb]. rewrite !build_ssch. unfold node_plain.
   assert (S1 : forall (A : Type) (x : str -> A) (y : A) (l : list sch), length l <> 1%nat -> match l with [SRef r] => x r | _ => y end = y).
   { intros A x y l Hl. destruct l as [|[r|? ? ? ? ? ? ? ? ? ? ?] [|? ?]]; try reflexivity. cbn in Hl. congruence. }
   rewrite S1 by (rewrite !app_length, !map_length in *; exact L).
   rewrite S1 by (rewrite !app_length, !map_length in *; exact L').
-  apply pfd_ext; try apply kids_refl; try (apply equiv_kids; assumption).
-  destruct (option_map (build c e parent) (option_map pre items)); cbn; [intro; reflexivity|exact I].
+  apply pfd_ext; try apply akids_refl; try (apply equiv_kids; assumption).
+  destruct (option_map (build_g c e parent) (option_map pre items)); cbn; [intros ? ?; reflexivity|exact I].
 Qed.
 
 (* non-vacuity + the tuple-array shape: prefixItems [T] with items written as nullable / type list, and a duplicate member kept *)
@@ -605,3 +652,12 @@ Example tuple_array_example :
       [TLeaf LDate (sub_name (sub_name (item_name [112]) 0) 0) None; TLeaf LNone (sub_name (sub_name (item_name [112]) 0) 1) None;
        TLeaf LDate (sub_name (sub_name (item_name [112]) 1) 0) None; TLeaf LNone (sub_name (sub_name (item_name [112]) 1) 1) None] None).
 Proof. split; vm_compute; reflexivity. Qed.
+
+(* a tuple member is validated once more than a nested schema: a nullable union member gets a second null there *)
+Example tuple_member_revalidated :
+  norm cfg0 (envl []) [72] false
+    (SSch (TyOne JArray) false [] [] [] [] (Some s_str) [SSch TyAbsent true [] [] [s_str] [] None [] None None o_none] None None o_none) [112]
+  = TList [112] (TUnion (item_name [112])
+      [TLeaf LStr (sub_name (sub_name (item_name [112]) 0) 0) None; TLeaf LNone (sub_name (sub_name (item_name [112]) 0) 1) None;
+       TLeaf LNone (sub_name (sub_name (item_name [112]) 0) 2) None; TLeaf LStr (sub_name (item_name [112]) 1) None] None).
+Proof. vm_compute. reflexivity. Qed.
